@@ -5,11 +5,13 @@ CONSTANTS
   SVals <- SV
   Elems <- EL
   MaxLen = 2
-  MaxOps = 3
+  MaxOps = 2
   MaxSaves = 2
   MaxEvents = 1
   Dev <- NoDev
+  Pairs2 = FALSE
 INVARIANT TypeOK
 INVARIANT PendingExact
 INVARIANT AfterAck
+INVARIANT ViewIsTor
 INVARIANT Tracked
